@@ -430,8 +430,14 @@ func (p *postHandshake) processPostHandshakeMessages(ctx context.Context, conn C
 
 			return err
 		}
+		sequence := p.state.HandshakeRecvSequence
 		if err := p.handlePostHandshakeMessage(ctx, conn, message, item.Epoch); err != nil {
 			return err
+		}
+		if p.state.HandshakeRecvSequence == sequence {
+			// The message was refused with a fatal alert and stays in the
+			// cache: stop instead of handling it over and over again.
+			return dtlserrors.ErrUnexpectedPostHandshakeMessage
 		}
 	}
 
